@@ -298,13 +298,23 @@ def main():
                     for s in read_scn_file(os.path.join(corpus_dir, fn)):
                         s.id = 'corpus/%s/%s' % (fn, s.id)
                         scns.append(s)
-        rng = Rng(seed)
-        gen = list(prop.generate(rng, tier))
-        seen = set()
-        for s in gen:
-            if s.id in seen:
-                raise RuntimeError('duplicate scenario id ' + s.id)
-            seen.add(s.id)
+        # the thorough tier draws from several seeds (VERIF_SEED, +1, ...) unless the property's oracle relates scenarios to
+        # each other by id or group (cross_oracle); scenarios with identical text are run once
+        nseeds = int(os.environ.get('VERIF_NSEEDS', '4')) if tier == 'thorough' and not hasattr(prop, 'cross_oracle') else 1
+        seen, texts = set(), set()
+        gen = []
+        for k in range(nseeds):
+            for s in prop.generate(Rng(seed + k), tier):
+                if k:
+                    s.id = '%s~s%d' % (s.id, seed + k)
+                if s.id in seen:
+                    raise RuntimeError('duplicate scenario id ' + s.id)
+                seen.add(s.id)
+                t = '\n'.join(s.lines)
+                if k and t in texts:
+                    continue
+                texts.add(t)
+                gen.append(s)
         scns += gen
         for s in scns:
             k = s.meta.get('class', 'other')
